@@ -82,7 +82,7 @@ pub fn run_one(ctx: &mut Ctx, kind: &str, qs: &[AQ]) {
     let res = match res {
         Err(msg) => {
             ctx.case(kind, true, &line, "panic");
-            ctx.oracle_fail(&format!("sets:panic:{}", shape_key(qs)), "construct_intermediate_sets panics", json!({"queries": fmt_queries(qs), "panic": msg}));
+            crate::ofail(ctx, &format!("sets:panic:{}", size_key(qs)), "construct_intermediate_sets panics", json!({"queries": fmt_queries(qs), "panic": msg}));
             return;
         }
         Ok(r) => r,
@@ -93,8 +93,8 @@ pub fn run_one(ctx: &mut Ctx, kind: &str, qs: &[AQ]) {
     ctx.count(if dup { "sets:duplicate" } else { "sets:ok" });
     match &res {
         Err(_) if dup => {}
-        Err(_) => ctx.oracle_fail(&format!("sets:spurious-error:{}", shape_key(qs)), "a duplicate-free query set is refused", json!({"queries": fmt_queries(qs)})),
-        Ok(_) if dup => ctx.oracle_fail(&format!("sets:dup-accepted:{}", shape_key(qs)), "a query set repeating a (commitment, point) pair is not refused", json!({"queries": fmt_queries(qs)})),
+        Err(_) => crate::ofail(ctx, &format!("sets:spurious-error:{}", size_key(qs)), "a duplicate-free query set is refused", json!({"queries": fmt_queries(qs)})),
+        Ok(_) if dup => crate::ofail(ctx, &format!("sets:dup-accepted:{}", size_key(qs)), "a query set repeating a (commitment, point) pair is not refused", json!({"queries": fmt_queries(qs), "shape": shape_key(qs)})),
         Ok((cm, sets)) => {
             ctx.count(&format!("sets:nsets={}", sets.len()));
             let mut bad = cm.len() != {
@@ -124,10 +124,21 @@ pub fn run_one(ctx: &mut Ctx, kind: &str, qs: &[AQ]) {
                 }
             }
             if bad {
-                ctx.oracle_fail(&format!("sets:misplaced:{}", shape_key(qs)), "grouping puts a commitment into a set different from its points, or an evaluation at the wrong position", json!({"queries": fmt_queries(qs), "result": ans}));
+                crate::ofail(ctx, &format!("sets:misplaced:{}", size_key(qs)), "grouping puts a commitment into a set different from its points, or an evaluation at the wrong position", json!({"queries": fmt_queries(qs), "shape": shape_key(qs), "result": ans}));
             }
         }
     }
+}
+
+/// Size class of a query list: number of commitments x number of points (capped).
+pub fn size_key(qs: &[AQ]) -> String {
+    let mut cs: Vec<usize> = qs.iter().map(|q| q.c).collect();
+    cs.sort();
+    cs.dedup();
+    let mut ps: Vec<Fq> = qs.iter().map(|q| q.p).collect();
+    ps.sort();
+    ps.dedup();
+    format!("{}x{}", cs.len().min(5), ps.len().min(4))
 }
 
 /// Shape of a query list up to the values: `(commitment, point number by first appearance)`.
